@@ -4,7 +4,7 @@ from __future__ import annotations
 from harness import chartlab as lab, common
 
 ID = "C07"
-LEAN_MODULES = ["PptxModel.Props.C07"]
+LEAN_MODULES = ["PptxModel.Props.C07", "PptxModel.Props.C07H"]
 RULE = (
     "every chart type the writer supports (found by probing ChartXmlWriter) x seeded chart data: string / numeric / date "
     "categories (dates either side of the 1900 leap-year bug, 1904), 2-4 level ragged hierarchies, missing values, 0..6 "
@@ -16,8 +16,9 @@ RULE = (
     "still be there.  Non-trivial = distinct (chart type, data, replace sequence)."
 )
 ASSUMPTIONS = [
-    "the Lean model covers the point caches (ptCount / pt idx) and idx/order allocation; category hierarchies and XML "
-    "validity are judged by oracles on the real output (root-to-leaf paths computed from the supplied tree; lxml XMLSchema)",
+    "the Lean model covers the point caches (ptCount / pt idx), idx/order allocation and the category hierarchy (levels "
+    "emitted, parentage scan, flattened labels = root-to-leaf paths, proved for every forest of uniform depth); XML "
+    "validity is judged by an oracle on the real output (lxml XMLSchema)",
     "values are integers in the model comparison (floats are judged by the read-back oracle only)",
 ]
 TRUSTED = ["lxml XMLSchema over the shipped dml-chart.xsd"]
@@ -85,6 +86,24 @@ def check_chart(ctx, chart, spec, ct, stage, lines, impl, metas):
                 if pl["flat"] != wantp:
                     ctx.fail("flattened-labels", f"{ct.name} [{stage}]: flattened labels {pl['flat'][:4]} but the tree's root-to-leaf paths are {wantp[:4]}", case)
                     break
+        if spec["kind"] == "multi":
+            # the levels the writer emitted and what the reader makes of them, against the Lean hierarchy model
+            from harness.common import enc
+
+            def toks(forest):
+                out = []
+                for lb, subs in forest:
+                    out.append(f"{enc(lb)}/{len(subs)}")
+                    out += toks(subs)
+                return out
+
+            lvls = root.xpath("(//c:ser)[1]/c:cat/c:multiLvlStrRef/c:multiLvlStrCache/c:lvl", namespaces=lab.NS)
+            lv = "|".join(",".join(f"{i}:{enc(t or '')}" for i, t in lab.pts_of(l)[1]) for l in lvls)
+            fl = "|".join(",".join(enc(x) for x in t) for t in api[0]["flat"]) if api else ""
+            depth = spec.get("depth", len(lvls))
+            lines.append(f"c07.flat {depth} {len(spec['tree'])} " + " ".join(toks(spec["tree"])))
+            impl.append(f"true {lv} {fl}"); metas.append(case)
+            ctx.case(key=lines[-1] + stage)
     idxs = [int(x) for x in root.xpath("//c:ser/c:idx/@val", namespaces=lab.NS)]
     orders = [int(x) for x in root.xpath("//c:ser/c:order/@val", namespaces=lab.NS)]
     if len(set(idxs)) != len(idxs) or len(set(orders)) != len(orders):
